@@ -71,7 +71,7 @@ class RegSpec(Spec):
         for v in self.data_vals:
             for n in range(R + 1):
                 self.prefixes.add((n, v >> (R - n)))
-        self.time_budget = 150 if tier == "quick" else 850      # safety net only; sized to finish in seconds
+        self.time_budget = 600 if tier == "quick" else 3000     # safety net only; sized to finish in seconds
         self.max_states = 400_000 if tier == "quick" else 3_000_000
         self.abort_budget = cfg.get("aborts", 1)
 
